@@ -141,7 +141,8 @@ TPResp ==
   /\ Ev.refused = FALSE
   /\ ProxyRespond(Ev.p)
   /\ presp'[Ev.p].kind = Ev.kind
-  /\ (Ev.kind = "offer" => /\ presp'[Ev.p].client = Ev.client
+  /\ (Ev.kind = "offer" => /\ Ev.exact = TRUE                        \* the offer text arrives unchanged
+                           /\ presp'[Ev.p].client = Ev.client
                            /\ presp'[Ev.p].nat = Ev.nat
                            /\ presp'[Ev.p].relay = Ev.relay)
   /\ cnt' = [cnt EXCEPT !.idle = @ + (IF Ev.kind = "nomatch" THEN 1 ELSE 0)]
@@ -178,7 +179,7 @@ TCCleanup == Is("c.cleanup") /\ LockOK /\ claimed[Ev.c] = Ev.p /\ ClientCleanup(
 TCResp ==
   /\ Is("c.resp")
   /\ \/ /\ cpc[Ev.c] = "done" /\ cresp[Ev.c].kind = Ev.kind
-        /\ (Ev.kind = "answer" => cresp[Ev.c].answer = Ev.a)
+        /\ (Ev.kind = "answer" => cresp[Ev.c].answer = Ev.a /\ Ev.exact = TRUE)   \* the answer text arrives unchanged
         /\ UNCHANGED vars
      \/ /\ cpc[Ev.c] = "idle" /\ Ev.fp \notin Bridges
         /\ ClientMatch(Ev.c, Ev.natwire, Ev.fp)
